@@ -64,16 +64,34 @@ class Ctx:
         return EnumM(BLABEL, name, Const(name))
 
     def scores_obj(self, sc="pos", ec="pos", cls=SCORES, pos=POS, neg=NEG, ep=EP, en=EN, extra=None):
+        """A Scores / GroupScores instance over symbolic sorted arrays.  It is built by the class's own constructor
+        (is_sorted=True), so attributes a constructor introduces (caches, ...) exist; falls back to direct assembly."""
         ci = self.db.cls(cls)
-        o = Obj(ci)
-        o.attrs.update(pos=pos, neg=neg, nb_easy_pos=ep, nb_easy_neg=en,
-                       score_class=self.label(sc) if isinstance(sc, str) else sc,
-                       equal_class=self.label(ec) if isinstance(ec, str) else ec)
-        if cls == GROUP:
-            o.attrs.update(pos_groups=Sym("pos_groups", ("attr", "array", "notnone")),
-                           neg_groups=Sym("neg_groups", ("attr", "array", "notnone")),
-                           groups=Sym("groups", ("attr", "array", "notnone")),
-                           _grouped_scores=Dct(), nb_easy_pos=Const(0), nb_easy_neg=Const(0))
+        scl = self.label(sc) if isinstance(sc, str) else sc
+        ecl = self.label(ec) if isinstance(ec, str) else ec
+        o = None
+        saved = (list(self.ev.pc), list(self.ev.events), list(self.ev.unmodelled))
+        try:
+            if cls == GROUP:
+                kw = dict(pos_groups=Sym("pos_groups", ("attr", "array", "notnone")), neg_groups=Sym("neg_groups", ("attr", "array", "notnone")),
+                          group_names=Sym("groups", ("attr", "array", "notnone")), score_class=scl, equal_class=ecl, is_sorted=Const(True))
+            else:
+                kw = dict(nb_easy_pos=ep, nb_easy_neg=en, score_class=scl, equal_class=ecl, is_sorted=Const(True))
+            cand = self.ev.instantiate(ci, [pos, neg], kw)
+            want = {"pos": pos, "neg": neg, "score_class": scl, "equal_class": ecl}
+            if all(cand.attrs.get(k) == v for k, v in want.items()):
+                o = cand
+        except Exception:  # noqa: BLE001  (constructor not evaluable: assemble directly)
+            o = None
+        self.ev.pc[:], self.ev.events[:], self.ev.unmodelled[:] = saved
+        if o is None:
+            o = Obj(ci)
+            o.attrs.update(pos=pos, neg=neg, nb_easy_pos=ep, nb_easy_neg=en, score_class=scl, equal_class=ecl)
+            if cls == GROUP:
+                o.attrs.update(pos_groups=Sym("pos_groups", ("attr", "array", "notnone")),
+                               neg_groups=Sym("neg_groups", ("attr", "array", "notnone")),
+                               groups=Sym("groups", ("attr", "array", "notnone")),
+                               _grouped_scores=Dct(), nb_easy_pos=Const(0), nb_easy_neg=Const(0))
         if extra:
             o.attrs.update(extra)
         return o
